@@ -42,17 +42,25 @@ def w_layout(case):
     fcp = _schema(case["text"])
     enc = make_encoder("packed", fcp, PackedEncoderContext().with_unroll_arrays(case["unroll"]))
     outs = []
+    held = []  # (index of the call, the list object generate() returned)
+
+    def snap(vals):
+        return {"leaves": [
+            {"name": v.name, "start": v.bitstart, "len": v.bitlength, "endian": str(v.endianess),
+             "unit": v.unit, "opts": [[str(k), _xv(x)] for k, x in v.extended_data.items()]}
+            for v in vals]}
+
     for ix in case["calls"]:
         impl = fcp.impls[ix]
         try:
             vals = enc.generate(impl)
-            outs.append({"leaves": [
-                {"name": v.name, "start": v.bitstart, "len": v.bitlength, "endian": str(v.endianess),
-                 "unit": v.unit, "opts": [[str(k), _xv(x)] for k, x in v.extended_data.items()]}
-                for v in vals]})
+            outs.append(snap(vals))
+            held.append((len(outs) - 1, vals))
         except (ValueError, KeyError) as e:
             outs.append({"err": "raise", "exc": type(e).__name__, "msg": str(e)[:80]})
-    return {"schema": fcp.to_dict(), "calls": outs}
+    # a layout handed out by an earlier generate() must still read the same after the later calls (a caller keeps it)
+    changed = [k for k, vals in held if snap(vals) != outs[k]]
+    return {"schema": fcp.to_dict(), "calls": outs, "changed_later": changed}
 
 
 # ------------------------------------------------------------------ generator
@@ -189,6 +197,13 @@ def run(prop, tier, replay=None):
                     "first_layout": r["calls"][0]}, limit=3)
         if "driver_err" in m:
             rep.violation({"kind": "harness", "case": c, "model": m}, no_input=True)
+            continue
+        if r.get("changed_later"):
+            rep.cov["disagreements_checked"] += 1
+            rep.violation({"kind": "history-aliasing", "schema": c["text"], "unroll": c["unroll"], "calls": c["calls"],
+                           "call_indices": r["changed_later"],
+                           "what": "the layout returned by an earlier generate() call reads differently after later calls on the "
+                                   "same encoder (it depends on what the encoder laid out afterwards)"})
             continue
         seen = {}
         for ci, (ix, io, mo) in enumerate(zip(c["calls"], r["calls"], m["calls"])):
